@@ -1090,6 +1090,15 @@ fn info_grid() -> Vec<Case18> {
     // constructed StreamInfo into a state that has a serialisation at all.
     let mut v = vec![];
     let full = |a: usize, b: usize, f0: usize, f1: usize, t: usize| vec![InfoOp::BlockSizes(a, b), InfoOp::FrameSizes(f0, f1), InfoOp::Total(t), InfoOp::Md5(7)];
+    // the ends of the serialisable setter ranges (total 0, 1, 2^32 +- 1, 2^36 - 1; frame sizes 0, 1, 2^24 - 1; block sizes 16, 32767)
+    for t in [0usize, 1, (1 << 32) - 1, 1 << 32, (1 << 32) + 1, (1 << 36) - 2, (1 << 36) - 1] {
+        for (f0, f1) in [(0usize, 0usize), (0, 1), (1, 1), (1, (1 << 24) - 1), ((1 << 24) - 1, (1 << 24) - 1), (14, 5000)] {
+            for (a, b) in [(16usize, 16usize), (16, 32767), (32767, 32767), (4096, 4096)] {
+                v.push(Case18::Info(InfoArgs { rate: 44100, channels: 2, bps: 16, ops: full(a, b, f0, f1, t) }));
+                v.push(Case18::Info(InfoArgs { rate: 1, channels: 8, bps: 24, ops: vec![InfoOp::Total(t), InfoOp::BlockSizes(a, b), InfoOp::FrameSizes(f0, f1)] }));
+            }
+        }
+    }
     let rates = [0usize, 1, 7, 44100, 95999, 96000, 96001, 176400, 192000, 655350, (1 << 20) - 1, 1 << 20, (1 << 20) + 44100, BIG + 44100, usize::MAX];
     let chans = [0usize, 1, 2, 7, 8, 9, 16, 255, 256, 257, 264, BIG + 2, usize::MAX];
     let bpss = bps_grid();
@@ -1341,7 +1350,7 @@ fn info_strategy() -> BoxedStrategy<InfoArgs> {
     let ops = prop_oneof![
         1 => Just(vec![]),
         1 => (16usize..=32767, 16usize..=32767).prop_map(|(a, b)| vec![InfoOp::BlockSizes(a.min(b), a.max(b))]),
-        6 => (16usize..=32767, 16usize..=32767, 0usize..(1 << 24), 0usize..(1 << 24), prop_oneof![2 => 0usize..100_000, 1 => 0usize..(1 << 36)], any::<u8>())
+        6 => (16usize..=32767, 16usize..=32767, 0usize..(1 << 24), 0usize..(1 << 24), prop_oneof![4 => 0usize..100_000, 2 => 0usize..(1 << 36), 1 => (0usize..4).prop_map(|d| (1usize << 36) - 1 - d), 1 => (0usize..=36, 0usize..3).prop_map(|(b, d)| ((1usize << b) + d).saturating_sub(1).min((1 << 36) - 1))], any::<u8>())
             .prop_map(|(a, b, f0, f1, t, m)| vec![InfoOp::BlockSizes(a.min(b), a.max(b)), InfoOp::FrameSizes(f0.min(f1), f0.max(f1)), InfoOp::Total(t), InfoOp::Md5(m)]),
     ];
     (
